@@ -68,6 +68,10 @@ def scpiCfg (ct rt dflt : String) : Option (Except Scpi.PyExc Scpi.Cfg) := do
   let d ← optNat dflt
   pure (Scpi.mkCfg c r d)
 
+/-- transport mode: 0 = strict stream, 1 = sloppy stream, 2 = message based -/
+def trMode (s : String) : Option (Bool × Bool) :=
+  if s == "0" then some (false, false) else if s == "1" then some (true, false) else if s == "2" then some (false, true) else none
+
 def scpiLine : List String → String
   | ["s.init", ct, rt] =>
     match scpiCfg ct rt "-" with
@@ -88,9 +92,9 @@ def scpiLine : List String → String
     | some (.error e), some _ => scpiExc e
     | _, _ => "bad-op"
   | ["s.ask", ct, rt, dflt, to, discard, sloppy, cmd, rx, pending] =>
-    match scpiCfg ct rt dflt, optNat to, bool01 discard, bool01 sloppy, natList cmd, Drv.unhex rx, Drv.unhex pending with
-    | some (.ok cfg), some to, some dc, some sl, some c, some rx, some pending =>
-      match Scpi.ask cfg { rx, pending, sloppy := sl } c to dc with
+    match scpiCfg ct rt dflt, optNat to, bool01 discard, trMode sloppy, natList cmd, Drv.unhex rx, Drv.unhex pending with
+    | some (.ok cfg), some to, some dc, some (sl, msg), some c, some rx, some pending =>
+      match Scpi.ask cfg { rx, pending, sloppy := sl, message := msg } c to dc with
       | (t, .ok r) => s!"ok {Drv.hex (r.map UInt8.ofNat)} log={showLog t.log} rx={Drv.hex t.rx}"
       | (t, .error e) => s!"{scpiExc e} log={showLog t.log} rx={Drv.hex t.rx}"
     | some (.error e), some _, some _, some _, some _, some _, some _ => scpiExc e
